@@ -268,6 +268,16 @@ func (t *Transport) getConn(addr string) (pc *persistConn, err error) {
 	if cq, ok := t.idleConns[addr]; ok && cq.Length() > 0 {
 		pc = cq.Dequeue()
 		pc.lastTime = time.Now()
+		// Housekeeping retires connections to the idle queue whether they
+		// are alive or not, so liveness must be checked here as well.
+		pc.mu.Lock()
+		alive := pc.alive
+		pc.mu.Unlock()
+		if !alive {
+			if pc, err = t.newPersistConn(addr); err != nil {
+				return nil, err
+			}
+		}
 	} else {
 		if pc, err = t.newPersistConn(addr); err != nil {
 			return nil, err
